@@ -6,7 +6,9 @@
 (*    and checks P_Read / P_Seal on the transcription;                      *)
 (*  - pipeline part: sequences of publishes (batches of up to MaxBatch      *)
 (*    values, with injected seal failures), subscribers, pause / resume,    *)
-(*    restart, change of the environment variable, tampering.  Also the     *)
+(*    restart, change of the environment variable, tampering, and - with    *)
+(*    two replicas - subscribers served by the follower and leader changes. *)
+(*    Also the                                                              *)
 (*    stimulus generator (-simulate with Sim_Encryption.cfg).               *)
 EXTENDS Encryption, TLC
 
@@ -16,35 +18,35 @@ CONSTANTS Lens,        \* value lengths of the table
           MaxPub,      \* values published in a behaviour
           MaxBatch,
           MaxSteps,
-          MaxFailBatches, MaxRestart, MaxTamper, MaxEnv, MaxPause, MaxSub,
+          MaxFailBatches, MaxRestart, MaxTamper, MaxEnv, MaxPause, MaxSub, MaxLead,
           PubClasses,  \* value classes drawn for published values (the stimulus generator draws one and the
           Hows,        \* check re-draws class, scheduling and tampered region itself: decoration that the
           TamperRegs   \* model's outcome does not depend on)
 
-VARIABLES last, nPub, nStep, nFail, nRestart, nTamper, nEnv, nPause, nSub
-budget == <<nPub, nStep, nFail, nRestart, nTamper, nEnv, nPause, nSub>>
+VARIABLES last, nPub, nStep, nFail, nRestart, nTamper, nEnv, nPause, nSub, nLead
+budget == <<nPub, nStep, nFail, nRestart, nTamper, nEnv, nPause, nSub, nLead>>
 mcvars == <<vars, last, budget>>
 
 MCInit ==
-  /\ Init /\ env = "k1"
+  /\ Init /\ env = "k1" /\ lead = [s \in Streams |-> CHOOSE r \in Replicas : TRUE]
   /\ last = [a |-> "Open"]
-  /\ nPub = 0 /\ nStep = 0 /\ nFail = 0 /\ nRestart = 0 /\ nTamper = 0 /\ nEnv = 0 /\ nPause = 0 /\ nSub = 0
+  /\ nPub = 0 /\ nStep = 0 /\ nFail = 0 /\ nRestart = 0 /\ nTamper = 0 /\ nEnv = 0 /\ nPause = 0 /\ nSub = 0 /\ nLead = 0
 
 \* ---- table part
 MCRead(n, c) ==
   /\ obs' = [a |-> "Read", out |-> ReadT(Abs(c, n))]
   /\ last' = [a |-> "Read", n |-> n, c |-> c]
-  /\ UNCHANGED <<up, env, hk, paused, log, budget>>
+  /\ UNCHANGED <<up, env, lead, hk, paused, log, budget>>
 
 MCSeal(n) ==
   /\ obs' = [a |-> "Seal", s |-> SealT(n)]
   /\ last' = [a |-> "Seal", n |-> n]
-  /\ UNCHANGED <<up, env, hk, paused, log, budget>>
+  /\ UNCHANGED <<up, env, lead, hk, paused, log, budget>>
 
 MCNew(m) ==
   /\ obs' = [a |-> "New", ok |-> NewT(m)]
   /\ last' = [a |-> "New", m |-> m]
-  /\ UNCHANGED <<up, env, hk, paused, log, budget>>
+  /\ UNCHANGED <<up, env, lead, hk, paused, log, budget>>
 
 \* ---- pipeline part
 Step == nStep < MaxSteps /\ last.a \notin {"Read", "Seal", "New"}
@@ -61,49 +63,56 @@ MCPublish(s, b, fails, how) ==
   /\ DoPublish(s, Vals(b), fails)
   /\ last' = [a |-> "Publish", s |-> s, vals |-> Vals(b), fails |-> fails, how |-> how]
   /\ nPub' = nPub + Len(b) /\ nFail' = (IF fails # {} THEN nFail + 1 ELSE nFail) /\ Tick
-  /\ UNCHANGED <<nRestart, nTamper, nEnv, nPause, nSub>>
+  /\ UNCHANGED <<nRestart, nTamper, nEnv, nPause, nSub, nLead>>
 
-MCSubscribe(s, from, rev) ==
+MCSubscribe(s, from, rev, at) ==
   /\ nSub < MaxSub
-  /\ DoSubscribe(s, from, rev)
-  /\ last' = [a |-> "Subscribe", s |-> s, from |-> from, rev |-> rev]
-  /\ nSub' = nSub + 1 /\ Tick /\ UNCHANGED <<nPub, nFail, nRestart, nTamper, nEnv, nPause>>
+  /\ DoSubscribe(s, from, rev, at)
+  /\ last' = [a |-> "Subscribe", s |-> s, from |-> from, rev |-> rev, at |-> at]
+  /\ nSub' = nSub + 1 /\ Tick /\ UNCHANGED <<nPub, nFail, nRestart, nTamper, nEnv, nPause, nLead>>
 
 MCPause(s) ==
   /\ nPause < MaxPause
   /\ DoPause(s)
   /\ last' = [a |-> "Pause", s |-> s]
-  /\ nPause' = nPause + 1 /\ Tick /\ UNCHANGED <<nPub, nFail, nRestart, nTamper, nEnv, nSub>>
+  /\ nPause' = nPause + 1 /\ Tick /\ UNCHANGED <<nPub, nFail, nRestart, nTamper, nEnv, nSub, nLead>>
 
 MCResume(s) ==
   /\ DoResume(s)
   /\ last' = [a |-> "Resume", s |-> s]
-  /\ Tick /\ UNCHANGED <<nPub, nFail, nRestart, nTamper, nEnv, nPause, nSub>>
+  /\ Tick /\ UNCHANGED <<nPub, nFail, nRestart, nTamper, nEnv, nPause, nSub, nLead>>
 
 MCSetEnv(k) ==
   /\ nEnv < MaxEnv /\ k # env
   /\ DoSetEnv(k)
   /\ last' = [a |-> "SetEnv", k |-> k]
-  /\ nEnv' = nEnv + 1 /\ Tick /\ UNCHANGED <<nPub, nFail, nRestart, nTamper, nPause, nSub>>
+  /\ nEnv' = nEnv + 1 /\ Tick /\ UNCHANGED <<nPub, nFail, nRestart, nTamper, nPause, nSub, nLead>>
 
+\* (the harness restarts a one-server cluster only)
 MCRestart ==
-  /\ nRestart < MaxRestart
+  /\ nRestart < MaxRestart /\ Cardinality(Replicas) = 1
   /\ DoRestart
   /\ last' = [a |-> "Restart"]
-  /\ nRestart' = nRestart + 1 /\ Tick /\ UNCHANGED <<nPub, nFail, nTamper, nEnv, nPause, nSub>>
+  /\ nRestart' = nRestart + 1 /\ Tick /\ UNCHANGED <<nPub, nFail, nTamper, nEnv, nPause, nSub, nLead>>
 
-MCTamper(j, reg) ==
+MCTamper(r, j, reg) ==
   /\ nTamper < MaxTamper
-  /\ log["enc"][j].k # "none"
-  /\ DoTamper(j)
-  /\ last' = [a |-> "Tamper", j |-> j, reg |-> reg]
-  /\ nTamper' = nTamper + 1 /\ Tick /\ UNCHANGED <<nPub, nFail, nRestart, nEnv, nPause, nSub>>
+  /\ log[r]["enc"][j].k # "none"
+  /\ DoTamper(r, j)
+  /\ last' = [a |-> "Tamper", r |-> r, j |-> j, reg |-> reg]
+  /\ nTamper' = nTamper + 1 /\ Tick /\ UNCHANGED <<nPub, nFail, nRestart, nEnv, nPause, nSub, nLead>>
+
+MCLeaderChange(s) ==
+  /\ nLead < MaxLead
+  /\ DoLeaderChange(s)
+  /\ last' = [a |-> "LeaderChange", s |-> s]
+  /\ nLead' = nLead + 1 /\ Tick /\ UNCHANGED <<nPub, nFail, nRestart, nTamper, nEnv, nPause, nSub>>
 
 MCCreateProbe ==
   /\ last.a = "SetEnv"
   /\ DoCreateProbe
   /\ last' = [a |-> "CreateProbe"]
-  /\ Tick /\ UNCHANGED <<nPub, nFail, nRestart, nTamper, nEnv, nPause, nSub>>
+  /\ Tick /\ UNCHANGED <<nPub, nFail, nRestart, nTamper, nEnv, nPause, nSub, nLead>>
 
 MCNext ==
   \/ (TableOn /\ last.a = "Open") /\ \E n \in Lens : \E c \in Cases(n) : MCRead(n, c)
@@ -111,13 +120,14 @@ MCNext ==
   \/ (TableOn /\ last.a = "Open") /\ \E m \in MKLens : MCNew(m)
   \/ (Step /\ up /\ nPub < MaxPub) /\ \E s \in Streams, b \in Batches, how \in Hows :
         \E fails \in SUBSET (1..Len(b)) : MCPublish(s, b, fails, how)
-  \/ (Step /\ up) /\ \E s \in Streams : \E from \in 0..(Len(log[s]) - 1), rev \in BOOLEAN : MCSubscribe(s, from, rev)
+  \/ (Step /\ up) /\ \E s \in Streams : \E at \in Replicas : \E from \in 0..(Len(log[at][s]) - 1), rev \in BOOLEAN : MCSubscribe(s, from, rev, at)
   \/ (Step /\ up) /\ \E s \in Streams : MCPause(s)
   \/ (Step /\ up) /\ \E s \in Streams : MCResume(s)
   \/ Step /\ \E k \in Keys \cup {"bad"} : MCSetEnv(k)
   \/ Step /\ MCRestart
-  \/ (Step /\ up) /\ \E j \in 1..Len(log["enc"]) : \E reg \in TamperRegs : MCTamper(j, reg)
+  \/ (Step /\ up) /\ \E r \in Replicas : \E j \in 1..Len(log[r]["enc"]) : \E reg \in TamperRegs : MCTamper(r, j, reg)
   \/ Step /\ MCCreateProbe
+  \/ (Step /\ up) /\ \E s \in Streams : MCLeaderChange(s)
 
 MCSpec == MCInit /\ [][MCNext]_mcvars
 
@@ -126,9 +136,9 @@ StepOK ==
   CASE a.a = "Read" -> P_Read(obs'.out, a.c)
     [] a.a = "Seal" -> P_Seal(obs'.s, a.n)
     [] a.a = "Publish" -> P_Publish(a.s, a.vals, a.fails)
-    [] a.a = "Subscribe" -> P_Subscribe(a.s, a.from, a.rev)
-    [] a.a = "Tamper" -> P_Tamper(a.j)
-    [] a.a \in {"Pause", "Resume", "SetEnv", "Restart", "CreateProbe"} -> P_Quiet
+    [] a.a = "Subscribe" -> P_Subscribe(a.s, a.from, a.rev, a.at)
+    [] a.a = "Tamper" -> P_Tamper
+    [] a.a \in {"Pause", "Resume", "SetEnv", "Restart", "CreateProbe", "LeaderChange"} -> P_Quiet
     [] OTHER -> TRUE
 StepsOK == [][StepOK]_mcvars
 
@@ -136,5 +146,5 @@ StepsOK == [][StepOK]_mcvars
 C17_NoGarbage == obs.a = "Subscribe" => \A j \in 1..Len(obs.got) : obs.got[j] > 0
 
 \* an injected seal failure leaves no trace in the log: every entry carries a value that was acknowledged
-MCView == <<up, env, hk, paused, log, obs, last, budget>>
+MCView == <<up, env, lead, hk, paused, log, obs, last, budget>>
 =============================================================================
